@@ -158,7 +158,7 @@ deriving Repr, BEq, DecidableEq
 structure WD where
   R : Nat
   cap : Nat                    -- capacity of dwac
-  drain : Bool                 -- dwr() discards a left-over ack before its first DWR
+  drain : Bool                 -- dwr() discards one left-over ack (a non-blocking receive) before its first DWR
   pc : WdPc := .sleeping
   dwac : Nat := 0              -- acks buffered
   closedByWD : Bool := false   -- the watchdog called c.Close()
@@ -185,7 +185,7 @@ deriving Repr, BEq, DecidableEq
 def WD.step (s : WD) : WdEv → Option WD
   | .wdTimer =>
     if s.pc = .sleeping ∧ ¬ s.gone then
-      some { s with pc := .writing 0, dwac := if s.drain then 0 else s.dwac, cycleDwrs := 0, cycleTimers := 0,
+      some { s with pc := .writing 0, dwac := if s.drain then s.dwac - 1 else s.dwac, cycleDwrs := 0, cycleTimers := 0,
                     answered := false, cycles := s.cycles + 1 }
     else none
   | .wdStop => if s.pc = .sleeping ∧ s.gone then some { s with pc := .stopped } else none
